@@ -15,7 +15,7 @@ From Tetl Require Import C01.ProofsBase C01.ProofsStep C01.ProofsIv C01.ProofsEx
   C01.ProofsIvExt.
 Local Open Scope Z_scope.
 
-(** 1. One-step refinement for all 43 static_vector operations (the 28 of Properties.v and the 15 new ones):
+(** 1. One-step refinement for all 44 static_vector operations (the 28 of Properties.v and the 16 new ones):
     whenever the std::vector specification defines the call, the model of the etl code returns normally with the same
     returned values (iterator offsets, reference offsets, counts, elements read through reverse / const iterators and
     data()), reaches the specified abstract state, keeps the invariant, and agrees on everything observable. *)
@@ -27,7 +27,7 @@ Theorem C01_xstep_refines : forall pred c s o s1 out, Z.of_nat c < 2 ^ 63 ->
 Proof. intros pred c s o s1 out Hc Ha Hb. exact (xstep_refines pred c Hc s o Ha Hb s1 out). Qed.
 Print Assumptions C01_xstep_refines.
 
-(** 2. History refinement: every history over the 43 operations that std::vector accepts within the capacity, started
+(** 2. History refinement: every history over the 44 operations that std::vector accepts within the capacity, started
     on two freshly constructed static_vectors of ANY capacity, yields step by step the outputs and observations of
     std::vector. *)
 Theorem C01_xvector_refines_std : forall pred c ops outs, Z.of_nat c < 2 ^ 63 ->
@@ -39,7 +39,15 @@ Proof.
 Qed.
 Print Assumptions C01_xvector_refines_std.
 
-(** 3. Safety of the 43 operations for ALL arguments: never UB, never out of fuel, and a normal return keeps the
+(* ... and from every state satisfying the invariant (every reachable content state) *)
+Theorem C01_xhistory_refines : forall pred c ops s outs, Z.of_nat c < 2 ^ 63 ->
+  inv c (fst s) -> inv c (snd s) ->
+  xspec_run pred (Z.of_nat c) (abs s) ops = Some outs ->
+  xrun pred s ops = map Ok outs.
+Proof. intros pred c ops s outs Hc. exact (xrun_refines pred c Hc ops s outs). Qed.
+Print Assumptions C01_xhistory_refines.
+
+(** 3. Safety of the 44 operations for ALL arguments: never UB, never out of fuel, and a normal return keeps the
     invariant — in particular the storage still has exactly Capacity cells (capacity never changes). *)
 Theorem C01_xno_ub_invariant : forall pred c s o, Z.of_nat c < 2 ^ 63 ->
   inv c (fst s) -> inv c (snd s) ->
@@ -48,7 +56,7 @@ Theorem C01_xno_ub_invariant : forall pred c s o, Z.of_nat c < 2 ^ 63 ->
   (forall s' out, xstep pred s o = Ok (s', out) -> inv c (fst s') /\ inv c (snd s')).
 Proof.
   intros pred c s o Hc Ha Hb Harg.
-  assert (Harg' : xat_arg_ok o) by (destruct o as [o| | | | | | | | | | | | | |]; try exact I; destruct o; exact Harg || exact I).
+  assert (Harg' : xat_arg_ok o) by (destruct o as [o| | | | | | | | | | | | | | |]; try exact I; destruct o; exact Harg || exact I).
   destruct (xstep_no_ub pred c Hc s o Ha Hb Harg') as (H1 & H2). split; [exact H1|]. split; [exact H2|].
   intros s' out H. pose proof (xstep_safe pred c Hc s o Ha Hb Harg') as S. rewrite H in S. exact S.
 Qed.
@@ -161,15 +169,15 @@ Print Assumptions C01_inplace_vector_xcontract_fires.
 Example C01_ext_nonvacuous :
   let pred := fun (_ x : Z) => Z.even x in
   let ops := [CtorNVal false 2 7; Base (PushBack false 5); RIter false 0; SetAt false 1 9; SetBack false 4;
-              Base (CopyAssign true); CopyIndep true true 8; MoveInsertRange true 1 [6]; SwapFree; DataRead false;
-              CIter true; MaxSize false; SelfMoveAssign true; CtorN true 1; CtorRange false [1; 2]] in
+              Base (CopyAssign true); CopyIndep true true 8; Base (PopBack true); MoveInsertRange true 1 [6]; SwapFree; DataRead false;
+              CIter true; MaxSize false; SelfMoveAssign true; CtorN true 1; CtorRange false [1; 2]; CtorArr true [3; 4]] in
   let sops := [StPush false 1; StPushRv false 2; StEmplace true 3; StTop false; StSetTop false 5; StSwap;
                StCopyAssign false; StMoveConstruct true; StFromContainer true [7; 8]; StRelations; StPop true] in
   let iops := [IvFill false 2 7; IvTryEmplace false 5; IvTryPushRv false 6; IvCopyAssign true; IvSetAt true 0 1;
                IvMoveAssign false; IvSetBack false 3; IvCopyIndep false false 9; IvDataRead false; IvMaxSize true] in
   let fullv := {| buf := [1; 2; 3]; sz := 3 |} in
   Z.of_nat 3 < 2 ^ 63 /\ inv 3 (empty_vec 3) /\ inv 3 fullv
-  /\ (exists outs, xspec_run pred 3 ([], []) ops = Some outs /\ length outs = 15%nat
+  /\ (exists outs, xspec_run pred 3 ([], []) ops = Some outs /\ length outs = 17%nat
                    /\ xrun pred (empty_vec 3, empty_vec 3) ops = map Ok outs)
   /\ (exists outs, st_spec_run 3 ([], []) sops = Some outs /\ length outs = 11%nat
                    /\ st_run (empty_vec 3, empty_vec 3) sops = map Ok outs)
